@@ -181,9 +181,12 @@ type Opts struct {
 	MarkYields      bool
 	MaxEvents       int
 	Events          []evaluator.Event // delivered after Eval (only to existing handlers)
-	FailFast        bool
-	NoTestSummary   bool
-	OnYield         func(n int)
+	// KeepDelivering: after a handler ended in an Evy panic the remaining events are still delivered
+	// (the failure is recorded in the trace as "handler-failed:<class>").
+	KeepDelivering bool
+	FailFast       bool
+	NoTestSummary  bool
+	OnYield        func(n int)
 	// Attach is called with the evaluator before evaluation (to register hook observers).
 	Attach func(ev *evaluator.Evaluator)
 }
@@ -241,6 +244,13 @@ func Run(src string, o Opts) (out *Outcome) {
 				ev.Stopped = true
 			}
 			if err = ev.HandleEvent(e); err != nil {
+				if o.KeepDelivering && strings.HasPrefix(Classify(err), "panic:") {
+					// a user of the Evaluator API (unlike pkg/wasm) may go on after a handler ended in
+					// an Evy panic: record the failure in the trace and deliver the next event
+					rec.Events = append(rec.Events, "handler-failed:"+Classify(err))
+					err = nil
+					continue
+				}
 				break
 			}
 		}
